@@ -8,6 +8,8 @@ import (
 	"sort"
 	"strings"
 	"sync"
+	"sync/atomic"
+	"time"
 
 	"verif/core"
 
@@ -600,8 +602,14 @@ func (s *kindSearch) expandLevel() bool {
 	var mu sync.Mutex
 	next := map[[20]byte][]int{} // new state -> smallest path reaching it
 	frontier := s.frontier
+	var cut atomic.Bool
+	stop := hardStop(r)
 	ok := r.Parallel(int64(len(frontier)), 1, func(w int, lo, hi int64) {
 		for i := lo; i < hi; i++ {
+			if cut.Load() || time.Now().After(stop) {
+				cut.Store(true)
+				return
+			}
 			st := frontier[i]
 			e := s.eng(w)
 			res, panicked := expandState(e, kindI, st.path, s.jsVars, 0, len(k.ops))
@@ -637,7 +645,8 @@ func (s *kindSearch) expandLevel() bool {
 			}
 		}
 	})
-	if !ok {
+	if !ok || cut.Load() {
+		r.Expired() // records the cap if the deadline has passed; the level is incomplete either way
 		return false
 	}
 	s.levels++
@@ -743,42 +752,56 @@ func confirmA(r *core.Run, e *aEngine, c *ACase) {
 	r.Violation(f.sig, f.what, c)
 }
 
-// runPartA: level-synchronous BFS, all kinds advanced one level at a time so that a deadline cut still leaves a
-// completed smaller bound for every kind.
-func runPartA(r *core.Run) bool {
+// partA is the level-synchronous BFS over all kinds, advanced one level at a time so that a deadline cut still leaves
+// a completed smaller bound for every kind.
+type partA struct {
+	r         *core.Run
+	searches  []*kindSearch
+	maxLevels int
+	complete  bool
+}
+
+func newPartA(r *core.Run) *partA {
 	variants := variantsFor(r.Thorough())
 	var names []string
 	for _, v := range variants {
 		names = append(names, v.String())
 	}
 	r.Set("partA_proxy_variants", names)
-	maxLevels := r.Pick(2, 4) // number of BFS levels expanded = length of the longest operation path executed
+	pa := &partA{r: r, complete: true}
+	pa.maxLevels = r.Pick(2, 4) // number of BFS levels expanded = length of the longest operation path executed
 	if v := os.Getenv("C11_LEVELS"); v != "" {
-		fmt.Sscan(v, &maxLevels)
+		fmt.Sscan(v, &pa.maxLevels)
 	}
-	var searches []*kindSearch
 	for ki := range aKinds {
 		if only := os.Getenv("C11_KIND"); only != "" && only != aKinds[ki].name {
 			continue
 		}
-		searches = append(searches, newKindSearch(r, ki, variants))
+		pa.searches = append(pa.searches, newKindSearch(r, ki, variants))
 	}
-	complete := true
-	for level := 0; level < maxLevels && complete; level++ {
-		for _, s := range searches {
-			if len(s.frontier) == 0 {
+	return pa
+}
+
+// advance expands levels until every kind has `upTo` levels done (or its frontier is empty); false if cut.
+func (pa *partA) advance(upTo int) bool {
+	if upTo > pa.maxLevels {
+		upTo = pa.maxLevels
+	}
+	for level := 0; level < upTo && pa.complete; level++ {
+		for _, s := range pa.searches {
+			if s.levels > level || len(s.frontier) == 0 {
 				continue
 			}
 			if !s.expandLevel() {
-				complete = false
+				pa.complete = false
 				break
 			}
 		}
 	}
 	bounds := map[string]interface{}{}
-	for _, s := range searches {
+	for _, s := range pa.searches {
 		bounds[aKinds[s.kindI].name] = map[string]interface{}{"levels_expanded": s.levels, "ops": len(aKinds[s.kindI].ops), "closed": len(s.frontier) == 0, "unexpanded_frontier": len(s.frontier)}
 	}
-	r.Set("bounds_completed", bounds)
-	return complete
+	pa.r.Set("bounds_completed", bounds)
+	return pa.complete
 }
